@@ -31,6 +31,8 @@ def classify(s):
             return True, "const arithmetic"
         if re.match(r"^const char \*const$", t):
             return True, "const pointer to const chars"
+    if re.search(r"::threading::Thread_Storage(<.*>)?::", s["q"]) and not re.search(r"::(t::my_t|next_id::s_next_id)$", s["q"]):
+        return True, "deferred: objects inside Thread_Storage are decided by R14.2 (key discipline)"
     for rx, why in ALLOW:
         if re.search(rx, s["q"]):
             if s.get("const") or "my_t" in s["q"] or "s_next_id" in s["q"]:
@@ -76,19 +78,37 @@ def run(chk):
         fs = [f for f in ts_fns if f["cls"] == cls]
         short = strip_targs(cls) + "<" + cls.split("Thread_Storage<", 1)[1].rsplit(">", 1)[0].split("::")[-1][:40] + ">"
         # the thread_local store
-        stores = [v for f in fs for n in walk(f["body"]) if n.get("k") == "decl" for v in n["vars"] if v.get("tls")]
-        if len(stores) != 1:
-            r2.ob("%s/exactly one thread_local store" % short, False, fs[0].where, cls, "found %d thread_local objects" % len(stores))
+        allst = [(f, v) for f in fs for n in walk(f["body"]) if n.get("k") == "decl" for v in n["vars"] if v.get("tls") or v.get("static")]
+        maps = [(f, v) for f, v in allst if re.match(r"^std::(unordered_map|map)<", prog.T(f, v["t"]))]
+        if len(maps) != 1:
+            r2.ob("%s/exactly one thread_local map holds the per-thread objects" % short, False, fs[0].where, cls, "found %d" % len(maps))
             continue
-        st = stores[0]
-        st_type = prog.T(fs[0], st["t"])
+        st = maps[0][1]
+        st_type = prog.T(maps[0][0], st["t"])
+        # any further static / thread_local object of the class (a lookup cache, say) must itself be keyed by the id, never by an address
+        for sf, sv in allst:
+            svt = prog.T(sf, sv["t"])
+            if sv is st or svt.startswith("std::atomic<"):
+                continue
+            users = [g for g in fs if g is sf or any(n.get("k") == "call" and n.get("fn") is not None and prog.fn_by_id(g, n["fn"]) is sf for n in walk(g["body"]))]
+            addr = "Thread_Storage" in svt or "void *" in svt
+            this_cmp = [g for g in users for n in walk(g["body"]) if n.get("k") == "binop" and n.get("op") in ("==", "!=") and
+                        any(strip_casts(x).get("k") == "this" for x in (n["lhs"], n["rhs"]))]
+            id_cmp = [g for g in users for n in walk(g["body"]) if n.get("k") == "binop" and n.get("op") in ("==", "!=") and
+                      any(strip_casts(x).get("k") == "member" and strip_casts(strip_casts(x).get("base") or {"k": "this"}).get("k") == "this" for x in (n["lhs"], n["rhs"]))]
+            readers = [g for g in users if g is not sf and g["kind"] != "dtor"]
+            ok = not addr and not this_cmp and all(g in id_cmp for g in readers)
+            r2.ob("%s/additional per-thread object %s is keyed by the unique id" % (short, sv["name"]), ok, "%s:%d" % (sf["file"], sv["l"]), cls,
+                  "%s %s (%s) is %s: only the destroying thread can reset it, so on every other thread a new storage object at the same address inherits "
+                  "the dead one's entry" % ("thread_local" if sv.get("tls") else "static", sv["name"], svt[:90],
+                                            "matched against the object's address" if (addr or this_cmp) else "read without comparing it to the key member"))
         m = re.match(r"^std::(unordered_map|map)<(.*?), ", st_type)
         keyt = m.group(2) if m else "?"
         r2.ob("%s/store key type is not an address" % short, m is not None and "*" not in keyt and "void" not in keyt, "%s:%d" % (fs[0]["file"], st["l"]), cls,
               "thread_local map is keyed by %s: addresses are reused after destruction, and only the destroying thread erases its entry, so a new "
               "engine at the same address inherits the dead engine's per-thread state on every other thread" % keyt)
         # every access to the store indexes it with one and the same member
-        store_fn = next(f for f in fs if any(n.get("k") == "decl" and any(v.get("tls") for v in n["vars"]) for n in walk(f["body"])))
+        store_fn = maps[0][0]
         key_fields = set()
         bad_access = []
         naccess = 0
